@@ -395,3 +395,93 @@ class PcacdF(Family):
 FAMILIES = [AdwinF(), AdwinAccF(), CusumF(), PageHinkleyF(), DdmF(), EddmF(), StepdF(), LfrF(),
             KdqStreamF(), KdqBatchF(), HdddmF(), CdbdF(), NndviF(), PcacdF()]
 BY_NAME = {f.name: f for f in FAMILIES}
+
+
+# ---------------------------------------------------------------- independence of detector objects
+def _pubstats(name, det):
+    """a few public numeric observables per family (beyond state / counters / recs) that expose corrupted statistics"""
+    try:
+        if name in ("ADWIN", "ADWINAccuracy"):
+            return (round(float(det.mean()), 9), round(float(det.variance()), 9))
+        if name == "STEPD":
+            return (round(float(det.recent_accuracy()), 9), round(float(det.overall_accuracy()), 9))
+        if name in ("HDDDM", "CDBD"):
+            return (int(det.reference_n), tuple(sorted((int(k), round(float(v), 9)) for k, v in det.distances.items())))
+        if name == "NNDVI":
+            return (int(len(det.reference_batch)),)
+    except Exception as e:
+        return ("EXC:" + type(e).__name__,)
+    return ()
+
+
+def solo_trace(fam, cfg, hist):
+    det = fam.make(cfg)
+    items = fam.start(det, cfg, hist) or hist
+    out = []
+    for it in items:
+        try:
+            fam.feed(det, it)
+            out.append(obs(det) + (_pubstats(fam.name, det),))
+        except Exception as e:
+            out.append(("EXC:" + type(e).__name__,))
+            break
+    return out
+
+
+def isolation_failures(ctx, names, pairs_per_family=3, n_stream=240, n_batch=10):
+    """
+    Every property of the form "what the detector reports is a function of its own parameters and its own history" implies
+    that detector objects are independent of one another: the trace of a detector run alone equals its trace when a second
+    object of the same class (other parameters, other data) is constructed and updated alternately with it in the same
+    process.  (Accidental sharing — class-level containers, cached buffers, mutable default arguments, module-level caches
+    keyed too coarsely — is invisible to any check that runs one object at a time.)  Returns failure dicts for ctx.fail.
+    """
+    import core
+    fails = []
+    for name in names:
+        fam = BY_NAME[name]
+        for k in range(pairs_per_family):
+            rng = np.random.default_rng([ctx.seed, 4242, core.shash(name), k])
+            cfgA, cfgB = fam.config(rng), fam.config(rng)
+            if k % 2 == 0:                      # same structural parameters (shared buffers are often keyed by them), other thresholds
+                cfgB = dict(cfgA)
+            n = n_stream if fam.kind == "stream" else n_batch
+            hA, hB = fam.history(rng, cfgA, n), fam.history(rng, cfgB, n)
+            if fam.kind == "batch" and hA and hB and hasattr(hA[0][0], "shape") and hA[0][0].shape[1] != hB[0][0].shape[1]:
+                hB = fam.history(np.random.default_rng([ctx.seed, 4243, k]), cfgB, n)
+            solo = solo_trace(fam, cfgA, hA)
+            try:
+                dA, dB = fam.make(cfgA), fam.make(cfgB)
+                iA, iB = (fam.start(dA, cfgA, hA) or hA), (fam.start(dB, cfgB, hB) or hB)
+            except Exception as e:
+                fails.append(dict(detector=name, config=cfgA, other_config=cfgB, step=-1,
+                                  what=f"constructing / starting two {name} objects raised {type(e).__name__}: {e}"))
+                continue
+            ctx.count(f"isolation:{name}:pairs")
+            inter = []
+            deadB = False
+            for j, it in enumerate(iA):
+                if not deadB and j < len(iB):
+                    try:
+                        fam.feed(dB, iB[j])
+                    except Exception:
+                        deadB = True
+                try:
+                    fam.feed(dA, it)
+                    inter.append(obs(dA) + (_pubstats(name, dA),))
+                except Exception as e:
+                    inter.append(("EXC:" + type(e).__name__,))
+                    break
+            ctx.case(("isolation", name, k), any(len(o) > 1 and o[0] == "drift" for o in solo))
+            for j, (a, b) in enumerate(zip(solo, inter)):
+                if a != b:
+                    fails.append(dict(detector=name, config=cfgA, other_config=cfgB, step=j, alone=list(map(str, a)), interleaved=list(map(str, b)),
+                                      history_seed=[ctx.seed, 4242, name, k],
+                                      what=f"{name}: update {j} reports {b} when a second {name} object is updated alternately in the same process, "
+                                           f"{a} when the detector runs alone (detector objects are not independent)"))
+                    break
+            else:
+                if len(solo) != len(inter):
+                    fails.append(dict(detector=name, config=cfgA, other_config=cfgB, step=min(len(solo), len(inter)),
+                                      what=f"{name}: trace lengths differ alone / interleaved ({len(solo)} vs {len(inter)})"))
+    return fails
